@@ -1,4 +1,5 @@
 """C01 Canonicity: hash-consing discipline"""
+import evlm
 import witness
 import ecanon
 import ereduce
@@ -48,4 +49,9 @@ def run(ctx):
     esort.run(ctx, F)
     esort.check_relabel_worklist(ctx, F)
     eskip.run(ctx, F)
+    ctx.explain("E-VLM: the managers' variable <-> level maps stay mutually inverse permutations: extend appends the identity "
+                "(new variables at the new bottom levels), swap_levels exchanges exactly two levels in both vectors, lookups read "
+                "their own vector; the index-based and the pointer-based manager's copies are the same program.")
+    nv = evlm.run(ctx, F)
+    ctx.floor("E-VLM", "interpreted VarLevelMap situations", nv, 38)
     ctx.not_decided = "the 'iff' over histories (gc, slot reuse, reordering); handle equality across managers"
